@@ -1,6 +1,7 @@
 //! Line server of a batch binary.  One request per line on stdin, fields separated by `|`;
 //! every request gets exactly one final answer line, possibly preceded by `IMPORT|…` event lines
-//! (the guest called an import / intrinsic: the peer then sends further requests, ending with
+//! or `EVENT|text` lines (guest-side observations: no answer) 
+//! (IMPORT: the guest called an import / intrinsic: the peer then sends further requests, ending with
 //! `RETURN|bits`, which are served re-entrantly from inside the import symbol).
 //!
 //! Requests
@@ -14,6 +15,7 @@
 //!   DRIVE|key|term            call import `key` through the generated safe API with the given
 //!                             argument tuple -> ret|<result term>|<report>
 //!   DRIVE|key|term|keep      same, but the result is stashed (-> ret|<term> #<stash index>|…); UNSTASH|idx drops it
+//!   POLICY|seed              seeds the stubs' user-code policy (drop / into_inner / keep the payload / re-wrap)
 //!   READ|addr,len;…           -> ok|hex;hex…|live flags (1 = inside one live ledger block)
 //!   VERIFY                    redzone / poison scan of every G/H block of the process -> ok|errs
 //!   RETURN|bits               (inside an IMPORT event only)
@@ -83,6 +85,29 @@ pub fn stash(v: Box<dyn std::any::Any>) -> usize {
         srv().stash.push(Some(v));
         srv().stash.len() - 1
     })
+}
+
+/// a guest-side observation that must keep its place among the import events (payload created / taken /
+/// dropped): printed at once as `EVENT|text`, no answer expected
+pub fn emit(text: &str) {
+    let old = alloc::set_tag(TAG_X);
+    out(&format!("EVENT|{text}"));
+    alloc::set_tag(old);
+}
+
+static mut POLICY: u64 = 0x9E3779B97F4A7C15;
+
+/// next pseudo-random choice (0..n) of the user-code policy of the stubs (what to do with a received own
+/// handle of an exported resource, whether to re-wrap a fresh one); seeded by `POLICY|seed`
+pub fn next_policy(n: u64) -> u64 {
+    unsafe {
+        let mut x = POLICY;
+        x ^= x << 13;
+        x ^= x >> 7;
+        x ^= x << 17;
+        POLICY = x;
+        (x >> 33) % n
+    }
 }
 
 /// record the current allocation index under a name (`mark:<name>:<index>` in the notes): lets the peer
@@ -257,6 +282,10 @@ fn serve_loop(nested: bool) -> u64 {
                 }
                 Err(e) => out(&format!("error|{e}")),
             },
+            "POLICY" => {
+                unsafe { POLICY = f[1].parse::<u64>().unwrap_or(1) | 1 };
+                out("ok")
+            }
             "VERIFY" => {
                 let m = srv().start.unwrap();
                 let errs: Vec<String> = alloc::verify_since(m).iter().map(|e| format!("{}:{}:{}:{}", e.kind, e.addr, e.size, e.align)).collect();
